@@ -13,6 +13,9 @@ DEN = 64
 FINE_DEN = 2 ** 40
 WEIGHTS = [F(1, 4), F(1, 2), F(1), F(2), F(3)]
 MINP = [F(0), F(1, 4), F(1, 2), F(3, 4), F(1)]
+# non-dyadic bounds: torch compares float32 precision with the bound rounded to float32; tp/(tp+fp) and the
+# bound round identically when they are the same rational (verified for these values), the model is exact
+MINP_NONDYADIC = [F(7, 10), F(3, 5), F(9, 10), F(1, 3), F(2, 3)]
 
 
 # ---------------------------------------------------------------------------------------------
@@ -39,6 +42,51 @@ def gen_scores(rng, n, den=DEN, mode=None):
     k = {"two": 2, "three": 3, "half": max(1, n // 2)}.get(mode) or rng.randint(1, max(1, n))
     pool = rng.sample(range(0, den + 1), min(k, den + 1))
     return [rng.choice(pool) for _ in range(n)]
+
+
+def gen_exact_bound(rng, p, den=DEN, k=None, j=None, m=None):
+    """(scores, labels) whose best admissible curve point has precision EXACTLY p = a/b: a top block of a*k
+    positives and (b-a)*k negatives (one tie group, or positives-first distinct scores), then j negatives and
+    m positives at lower scores (precision drops below p there, recall at the exact point is < 1 when m > 0)."""
+    a, b = p.numerator, p.denominator
+    k = k or rng.choice([1, 1, 2, 3]); j = rng.choice([1, 2, 3]) if j is None else j; m = rng.choice([0, 1, 2]) if m is None else m
+    npos, nneg = a * k, (b - a) * k
+    hi = den
+    if rng.random() < 0.5:
+        xs, ys = [hi] * (npos + nneg), [1] * npos + [0] * nneg
+    else:                                   # distinct scores, positives first, some ties inside
+        xs = [hi - i // rng.choice([1, 1, 2]) for i in range(npos + nneg)]
+        ys = [1] * npos + [0] * nneg
+    lo = min(xs) - 1
+    xs += [lo - i for i in range(j)] + [lo - j - i for i in range(m)]
+    ys += [0] * j + [1] * m
+    order = list(range(len(xs)))
+    rng.shuffle(order)
+    return [xs[i] for i in order], [ys[i] for i in order]
+
+
+def gen_chained_rows(rng, t, n, den=DEN, kind="chained"):
+    """t rows of n scores with run-of-equal-scores continuing across every row boundary of the row-major
+    flattening of the per-row descending sorts: min(row i) == max(row i+1)."""
+    if kind == "const":
+        return [[den // 2] * n for _ in range(t)]
+    if kind == "clip":
+        rows = []
+        for i in range(t):
+            mode = rng.choice(["allhi", "alllo", "mix", "mix"])
+            rows.append([den if mode == "allhi" else 0 if mode == "alllo" else rng.choice([0, den]) for _ in range(n)])
+        return rows
+    piv = [den - 8 * i for i in range(t + 1)]               # P_0 > P_1 > ... > P_t; row i lives in [P_{i+1}, P_i]
+    rows = []
+    for i in range(t):
+        lo, hi = piv[i + 1], piv[i]
+        if n == 1:
+            rows.append([lo])
+            continue
+        r = [lo, hi] + [rng.choice([lo, hi, rng.randint(lo, hi)]) for _ in range(n - 2)]
+        rng.shuffle(r)
+        rows.append(r)
+    return rows
 
 
 def gen_labels(rng, n, mode=None):
@@ -73,7 +121,7 @@ class _Curve(Entry):
     min_compute = 1
 
     def kwargs(self, cfg):
-        return {k: v for k, v in cfg.items() if k != "den"}
+        return {k: v for k, v in cfg.items() if k not in ("den", "chain")}
 
     def __init_subclass__(cls, **kw):
         # every curve class is also exercised with float64 scores on a 2^-40 grid
@@ -97,14 +145,20 @@ class _BinaryTasks(_Curve):
     weighted = False
 
     def configs(self, rng, quick=True):
-        return [{"den": DEN, "num_tasks": t} for t in (1, 2, 3)]
+        # "chain": every batch of the configuration has runs of equal scores crossing the task-row boundaries
+        return [{"den": DEN, "num_tasks": t} for t in (1, 2, 3)] + \
+               [{"den": DEN, "num_tasks": 2, "chain": "chained"}, {"den": DEN, "num_tasks": 3, "chain": "const"},
+                {"den": DEN, "num_tasks": 3, "chain": "chained"}, {"den": DEN, "num_tasks": 2, "chain": "clip"}]
 
     def cfg_val(self, cfg):
         return [cfg["den"], cfg["num_tasks"]]
 
     def gen_batch(self, rng, cfg, n):
         t = cfg["num_tasks"]
-        xs = T_([gen_scores(rng, n, cfg["den"]) for _ in range(t)])     # rows differ in tie structure
+        if cfg.get("chain"):
+            xs = T_(gen_chained_rows(rng, t, n, cfg["den"], cfg["chain"]))
+        else:
+            xs = T_([gen_scores(rng, n, cfg["den"]) for _ in range(t)])     # rows differ in tie structure
         ys = T_([gen_labels(rng, n) for _ in range(t)])
         b = {"x": xs, "y": ys, "wmode": "none"}
         if self.weighted and rng.random() < 0.6:
@@ -177,6 +231,10 @@ class _Binary1(_Curve):
         return k
 
     def gen_batch(self, rng, cfg, n):
+        p = cfg.get("min_precision")
+        if p and 0 < p < 1 and cfg["den"] == DEN and rng.random() < 0.4:
+            xs, ys = gen_exact_bound(rng, p, cfg["den"])
+            return {"x": xs, "y": ys}
         return {"x": gen_scores(rng, n, cfg["den"]), "y": gen_labels(rng, n)}
 
     def tensors(self, cfg, b):
@@ -205,7 +263,7 @@ class BinaryRAPE(_Binary1):
     model, fn_model, spec_model = "curves_brap", "curves_brap_fn", "curves_brap_spec"
 
     def configs(self, rng, quick=True):
-        return [{"den": DEN, "min_precision": p} for p in MINP]
+        return [{"den": DEN, "min_precision": p} for p in MINP + MINP_NONDYADIC]
 
     def functional(self, cfg, b):
         return Fn.binary_recall_at_fixed_precision(*self.tensors(cfg, b), min_precision=float(cfg["min_precision"]))
@@ -245,7 +303,10 @@ class _Multi(_Curve):
 class _Multiclass(_Multi):
     def gen_batch(self, rng, cfg, n):
         c = cfg[self.nkey]
-        xs = T_([gen_scores(rng, n, cfg["den"]) for _ in range(c)])
+        if cfg["den"] == DEN and rng.random() < 0.2:      # equal-score runs crossing the class-row boundaries
+            xs = T_(gen_chained_rows(rng, c, n, cfg["den"], rng.choice(["chained", "const", "clip"])))
+        else:
+            xs = T_([gen_scores(rng, n, cfg["den"]) for _ in range(c)])
         mode = rng.choice(["any", "any", "any", "one", "two"])
         if mode == "one":                          # all other classes absent from the labels
             k = rng.randrange(c)
@@ -306,7 +367,10 @@ class _Multilabel(_Multi):
 
     def gen_batch(self, rng, cfg, n):
         c = cfg[self.nkey]
-        xs = T_([gen_scores(rng, n, cfg["den"]) for _ in range(c)])
+        if cfg["den"] == DEN and rng.random() < 0.2:
+            xs = T_(gen_chained_rows(rng, c, n, cfg["den"], rng.choice(["chained", "const", "clip"])))
+        else:
+            xs = T_([gen_scores(rng, n, cfg["den"]) for _ in range(c)])
         ys = T_([gen_labels(rng, n) for _ in range(c)])      # some labels all-positive / all-negative
         return {"x": xs, "y": ys}
 
@@ -344,7 +408,16 @@ class MultilabelRAPE(_Multilabel):
     has_avg = False
 
     def configs(self, rng, quick=True):
-        return [{"den": DEN, "num_labels": c, "min_precision": p} for c in (2, 3, 4) for p in MINP]
+        return [{"den": DEN, "num_labels": c, "min_precision": p} for c in (2, 3, 4) for p in MINP] + \
+               [{"den": DEN, "num_labels": 2 + i % 2, "min_precision": p} for i, p in enumerate(MINP_NONDYADIC)]
+
+    def gen_batch(self, rng, cfg, n):
+        p = cfg.get("min_precision")
+        if p and 0 < p < 1 and cfg["den"] == DEN and rng.random() < 0.4:
+            k, j, m = rng.choice([1, 1, 2]), rng.choice([1, 2, 3]), rng.choice([0, 1, 2])
+            cols = [gen_exact_bound(rng, p, cfg["den"], k, j, m) for _ in range(cfg["num_labels"])]
+            return {"x": T_([c[0] for c in cols]), "y": T_([c[1] for c in cols])}
+        return super().gen_batch(rng, cfg, n)
 
     def functional(self, cfg, b):
         return Fn.multilabel_recall_at_fixed_precision(*self.tensors(cfg, b), num_labels=cfg["num_labels"],
